@@ -139,6 +139,40 @@ def run(ctx, config='rel-all'):
     for key, v in A.items():
         if v is not None:
             _c01.check_ccf_stores(ctx, key, v[0], v[1], 'R7')
+    # ---- R8 nothing can unwind between a successful acquisition and the moment the chunk is owned by an arena value:
+    # a panic there (e.g. a validation assert placed after the allocation) loses the only pointer to the block
+    n8 = 0
+    for key, val in A.items():
+        if val is None:
+            continue
+        I, res, body = val
+        aggs = [(e, arena.footer_agg(e)[0]) for e in res.events if e.kind == 'store' and arena.footer_agg(e)]
+        for ge in [e for e in res.events if e.kind == 'galloc']:
+            g = ('app', 'galloc', ge.args[0], C(ge.extra['id']))
+            mine = [a for e, a in aggs if g in subterms(a)]
+            if not mine:
+                continue
+            Aaddr = mine[0]
+            n8 += 1
+            bad = []
+            for e in res.events:
+                if e.kind not in ('diverge', 'panic') and not (e.kind == 'assert' and not is_c(e.val)):
+                    continue
+                if (e.callee or '').endswith('unreachable_unchecked'):
+                    continue        # an optimiser hint, not an unwinding site (its feasibility is C09.R1's business)
+                succeeded = any((f[0] == 'ne' and g in f) or (f[0] == 'is' and f[2] in ('Some', 'Ok', 'Continue') and g in subterms(f[1])) for f in e.state.facts)
+                if not succeeded:
+                    continue
+                published = any(k[0] == 'fld' and k[2] == 'Bump.current_chunk_footer' and Aaddr in subterms(v) for k, v in e.state.mem.items())
+                if not published:
+                    bad.append(e)
+            fn = arena.short(arena.innermost(ge))
+            if bad:
+                e = bad[0]
+                ctx.violation('R8', arena.short(body['id']), 'panic-holding-chunk:%s' % (e.callee or e.kind).split('::')[-1], 'via %s: after the global allocator returned a block (in %s) and before the chunk is stored into an arena, %s can panic [%s]: the unwinding drops the only pointer to the block and it is never given back' % (key, fn, (e.callee or e.kind), arena.stack_str(e)), e.span)
+            else:
+                ctx.ok('R8', '%s via %s: no panic site is reachable between the acquisition and the publication of the chunk' % (fn, key), 'must-facts of every diverging event')
+    ctx.floor('R8', n8, 10, 'acquisition sites checked for panics before publication')
     # ---- R6 no destructors from reset/drop
     for key in ('drop', 'reset'):
         val = A.get(key)
